@@ -44,6 +44,9 @@ def applyOp (v : Array K) (op : String) : P (Option (Array K × String)) := do
   | "setindex" => let i ← pNat; let x ← Wire.rd; st (aset v i x)
   | "clonemut" => let x ← Wire.rd; st (.ok (Vec.push v x))
   | "sort" => st (.ok (Vec.sort v))
+  | "sortdesc" => st (.ok (Vec.sort v).reverse)
+  | "ones" => let n ← pNat; st (.ok (Array.replicate n 1))
+  | "zeros" => let n ← pNat; st (.ok (Array.replicate n 0))
   | "resize" => let n ← pNat; st (.ok (Vec.resize v n))
   | _ => pure none
 
